@@ -111,8 +111,12 @@ theorem ape_delete_clean (f : Bytes) (h32 : 32 ≤ f.length) : ∀ e, ApeF.delet
 ValueError from save/delete) -/
 example : locate ([0x41, 0x50, 0x45, 0x54, 0x41, 0x47, 0x45, 0x58, 0xd0, 7, 0, 0, 0xe8, 3, 0, 0, 0, 0, 0, 0, 0, 0, 0, 0xa0] ++
     zeros 8 ++ List.replicate 50 0x78) = .error .mutagen := by decide +kernel
-/-- the excluded small-file case: 24 bytes that start with "APETAGEX" -/
-example : ApeF.delete [0x41, 0x50, 0x45, 0x54, 0x41, 0x47, 0x45, 0x58, 0xd0, 7, 0, 0, 8, 0, 0, 0, 0, 0, 0, 0, 0, 0, 0, 0] =
+/-- the excluded small-file case: 24 bytes that start with "APETAGEX" (size field 32: the footer alone) -/
+example : ApeF.delete [0x41, 0x50, 0x45, 0x54, 0x41, 0x47, 0x45, 0x58, 0xd0, 7, 0, 0, 32, 0, 0, 0, 0, 0, 0, 0, 0, 0, 0, 0] =
     .error .value := by decide +kernel
+/-- a size field below the 32 bytes of the footer it is read from: refused ("APE tag size smaller than its footer"; before,
+`read(size - 32)` with a negative length: to the end of an in-memory stream, ValueError on a buffered file) -/
+example : locate (List.replicate 40 0x78 ++ [0x41, 0x50, 0x45, 0x54, 0x41, 0x47, 0x45, 0x58, 0xd0, 7, 0, 0, 8, 0, 0, 0] ++ zeros 16) =
+    .error .mutagen := by decide +kernel
 
 end Mutagen.C04
